@@ -121,6 +121,10 @@ pub open spec fn total(vec: Seq<ValidatorInfo>, k: int) -> int
 { if k <= 0 { 0 } else { total(vec, k - 1) + vec[k - 1].weight } }
 #[verifier::external_body]
 pub struct KeyIndex { _p: u8 }
+// the free threshold functions: contracts proved in unit `thresholds`
+#[verifier::external_body] pub fn max_faulty_weight(total_weight: u64) -> (r: u64) requires total_weight >= 1 ensures r as nat == spec_f(total_weight as nat) { unimplemented!() }
+#[verifier::external_body] pub fn quorum_threshold(total_weight: u64) -> (r: u64) requires total_weight >= 1 ensures r as int == spec_quorum(total_weight as nat) { unimplemented!() }
+#[verifier::external_body] pub fn subquorum_threshold(total_weight: u64) -> (r: u64) requires total_weight >= 1 ensures r as int == spec_subquorum(total_weight as nat) { unimplemented!() }
 impl Schedule {
     pub open spec fn wf(&self) -> bool {
         &&& self.vec@.len() >= 1
